@@ -10,7 +10,7 @@ from fractions import Fraction
 from harness import common as C
 from harness import history as H
 from harness import impl, trees
-from harness.translate import t1_datatype
+from harness.translate import t1_datatype, t8_prune
 
 PID = "C01"
 HEADER = ("From Coq Require Import QArith ZArith List. Import ListNotations.\n"
@@ -24,8 +24,13 @@ def sync():
         txt = t1_datatype.translate()
     except t1_datatype.TranslateError as e:
         return False, f"T1 translator: {e}"
+    try:
+        txt8 = t8_prune.translate()
+    except t8_prune.TranslateError as e:
+        return False, f"T8 translator (pruning loop of tree_likelihood.py): {e}"
     with C.CoqLock():
         C.write_if_changed(os.path.join(C.COQ, "gen", "G_datatype.v"), txt)
+        C.write_if_changed(os.path.join(C.COQ, "gen", "G_prune.v"), txt8)
     return True, txt
 
 
@@ -482,7 +487,8 @@ def run(tier, seed, replay=None):
                 "evaluation); non-trivial = >= 3 taxa; distinct = distinct case")
     rep.extra = dict(input_distribution=dist, model_undefined=undefined, exhaustive_topologies=len(pool),
                      traces_validated_against_impl=len(idx), mismatches=len(mism), histories=nh,
-                     translator_units=["datatype tables -> gen/G_datatype.v"])
+                     translator_units=["datatype tables -> gen/G_datatype.v",
+                                       "pruning loop update + returned expression (tip partials, tip states) -> gen/G_prune.v"])
     return rep.finish()
 
 
